@@ -136,14 +136,20 @@ def jobs(tier, seed):
         for x in xs:
             V.append((".beyond.i0=%d" % x, "xor.plan.beyond", hd, hd, x, x, None, 1, "B",
                       "requests beyond tolerance: |R|+|X| == hd, increasing index order, lowest index among the %d highest%s; larger requests take the same FAIL_PATTERN_GE_HD path" % (r, "" if tier == "thorough" else " (one per table, VERIF_SEED)")))
+        xd = list(range(hd - 1, min(n - 1, r) + 1))      # decreasing order: highest index first, among the r+1 lowest
+        if tier != "thorough":
+            xd = [xd[random.Random(seed * 104729 + k * 101 + m * 17 + hd).randrange(len(xd))]]
+        for x in xd:
+            V.append((".beyond.dec.i0=%d" % x, "xor.plan.beyond", hd, hd, x, x, None, 2, "B",
+                      "requests beyond tolerance: |R|+|X| == hd, decreasing index order, highest index among the %d lowest%s; mixed orders are not enumerated" % (r + 1, "" if tier == "thorough" else " (one per table, VERIF_SEED)")))
         x = rnd.randrange(n)
         V.append((".mem.i0=%d" % x, "xor.plan.mem", 1, l2, x, x, None, 0, "B", "memory-safety companion of the enumerated planner jobs under CBMC's own malloc/free model (use after free, leaks, exact heap bounds): requests with |R|+|X| <= 2 and one first index per table (VERIF_SEED)"))
         for (sfx, grp, lmin, lmax, lo, hi, e1, srt, strength, bound) in V:
             dd = {"K": k, "M": m, "HD": hd, "LMIN": lmin, "LMAX": lmax, "E0LO": lo, "E0HI": hi}
             if e1:
                 dd["E1LO"], dd["E1HI"] = e1
-            if srt == 1:
-                dd["SORTED"] = 1
+            if srt:
+                dd["SORTED"] = srt
             J.append(Job("xor.plan%s@%s" % (sfx, tag), group=grp, props=["C06"] + (["C15"] if grp == "xor.plan.mem" else []), layer="L2", strength=strength, bound=bound,
                          title=("flat_xor_hd_min_fragments/xor_hd_fragments_needed: EVERY request list R and exclude list X (all orders, all splits) with %d<=|R|+|X|<=%d and first index in [%d,%d]: %s" % (
                                 lmin, lmax, lo, hi, "succeeds; answer -1 terminated, distinct, in range, disjoint from R and X, spans every requested row over GF(2)" if lmax < hd
